@@ -19,9 +19,11 @@ type caseResult struct {
 	model     []string
 	viol      []violation
 	disagree  string
+	diverged  int // len(script) when model and implementation diverged
 	validated bool
 	abandoned string
 	faults    int
+	slowCalls int // clock advances of at least one interval while a data sync / state write was in progress
 	contended int // stimuli after which both loops reached for storeLock
 	lockWaits int // stimuli that left a loop waiting for storeLock
 	ops       map[string]int
@@ -93,7 +95,17 @@ func runCase(t *testing.T, model *hx.Model, cfg config, next func(s *sut, v *vie
 			}
 			res.validated = true
 		}
-		for res.disagree == "" && res.abandoned == "" && s.panicCount() == 0 {
+		live := model != nil // the model is stepped alongside
+		for res.abandoned == "" && s.panicCount() == 0 {
+			if live && res.disagree != "" {
+				// Model and implementation have diverged. Keep running the schedule on the
+				// implementation alone so that the oracle can still judge it: state writes no longer
+				// park (nothing predicts storeLock waits any more), data syncs still do.
+				live = false
+				res.diverged = len(res.script)
+				summary = ""
+				s.oracleOnly()
+			}
 			op, more := next(s, v, summary)
 			if !more {
 				break
@@ -130,7 +142,7 @@ func runCase(t *testing.T, model *hx.Model, cfg config, next func(s *sut, v *vie
 				fmt.Fprintf(os.Stderr, "op %q summary %s\n", op, summary)
 			}
 			preRep := ""
-			if w[0] == "tick" && model != nil && len(w) == 2 {
+			if w[0] == "tick" && live && len(w) == 2 {
 				// ask the model first: the clock must not be asked to go beyond the point
 				// where a loop ends up in storeLock.Lock() (virtual time would stop there)
 				preRep = model.Step(op)
@@ -144,7 +156,13 @@ func runCase(t *testing.T, model *hx.Model, cfg config, next func(s *sut, v *vie
 					continue
 				}
 			}
+			callParked := s.anyParked()
 			line, want, ok := s.apply(v, op)
+			if ok && callParked && strings.HasPrefix(op, "tick ") {
+				if n, _ := strconv.Atoi(strings.Fields(op)[1]); n >= cfg.minInt {
+					res.slowCalls++
+				}
+			}
 			if s.panicCount() > 0 {
 				res.script = append(res.script, op)
 				break
@@ -175,7 +193,7 @@ func runCase(t *testing.T, model *hx.Model, cfg config, next func(s *sut, v *vie
 			if line == "" {
 				continue
 			}
-			if model == nil {
+			if !live {
 				synctest.Wait()
 				continue
 			}
@@ -208,7 +226,7 @@ func runCase(t *testing.T, model *hx.Model, cfg config, next func(s *sut, v *vie
 			if len(parts) != 3 {
 				res.impl = append(res.impl, line+" => "+want)
 				res.disagree = fmt.Sprintf("%q: model replied %q, implementation %q", line, rep, want)
-				break
+				continue
 			}
 			head := strings.Fields(parts[0])
 			race := false
@@ -283,4 +301,10 @@ func (s *sut) panicCount() int {
 	s.mu.Lock()
 	defer s.mu.Unlock()
 	return len(s.panics)
+}
+
+func (s *sut) anyParked() bool {
+	s.mu.Lock()
+	defer s.mu.Unlock()
+	return s.parkSync != nil || len(s.parkWrite) > 0
 }
